@@ -1051,8 +1051,16 @@ pub fn gen_big(p: &mut Prng, id: String) -> SimCase {
     };
     let trace = decorate(p, trace0);
     let delay_ns = *p.pick(DELAYS);
-    let mc: Vec<Machine> = (0..nmc).map(|_| gen_sim_machine(p, true)).collect();
-    let ms: Vec<Machine> = (0..nms).map(|_| gen_sim_machine(p, true)).collect();
+    // half of the many-machine cases: copies of ONE machine per side, so that every machine acts, arms its
+    // timer and fires at the same instants (index aliasing and fixed-size scratch buffers show at once)
+    let same = !long && p.chance(1, 2);
+    let (mc, ms): (Vec<Machine>, Vec<Machine>) = if same {
+        let a = gen_sim_machine(p, true);
+        let b = gen_sim_machine(p, true);
+        ((0..nmc).map(|_| a.clone()).collect(), (0..nms).map(|_| b.clone()).collect())
+    } else {
+        ((0..nmc).map(|_| gen_sim_machine(p, true)).collect(), (0..nms).map(|_| gen_sim_machine(p, true)).collect())
+    };
     let mut c = SimCase { id, kind: "big".into(), mc, ms, trace, delay_ns, runs: vec![] };
     let mut main = base_run("main", p, None);
     if long {
